@@ -234,7 +234,10 @@ def one(args):
     tr = os.path.join(vlib.BUILD, "tmp", "c04_%d_%d.trace" % (os.getpid(), idx))
     os.makedirs(os.path.dirname(tr), exist_ok=True)
     rc, res, out, err = sc.run_aligned(text, timeout=20, trace=tr)
-    ops, states = (None, "no trace")
+    if not os.path.exists(tr):
+        # the run did not start or was killed before its first event (binary being relinked by a concurrent check, overload): once more
+        rc, res, out, err = sc.run_aligned(text, timeout=40, trace=tr)
+    ops, states = (None, "no trace (rc=%s)" % rc)
     contract = []
     tev = ""
     if os.path.exists(tr):
@@ -274,6 +277,9 @@ def run(ctx):
     lines, keep = [], []
     for r in results:
         text, meta, rc, out, ops, states, ans, fresh, out3, contract, tev = r
+        if ops is None and rc not in (0, 1):
+            ctx.count("not-run(crash/timeout before the first trace event)")
+            continue
         if ops is None:
             ctx.tie_broken("ms-trace", str(states), dict(script=text))
             continue
